@@ -390,4 +390,76 @@ theorem listRoutes_total (tool : Tool) (lines : List Bytes) :
   intro r hr
   exact hwf r (List.mem_filter.mp hr).1
 
+/-! ### helpers for the delivery theorems -/
+
+theorem routePkt_replicate (n : Nat) (r : Route) :
+    (routePkt (List.replicate n r)).length = n * (fmtRoute r).length := by
+  induction n with
+  | zero => simp [routePkt]
+  | succ n ih =>
+    simp only [routePkt, List.replicate_succ, List.map_cons, List.flatten_cons, List.length_append] at ih ⊢
+    rw [ih, Nat.succ_mul]; omega
+
+theorem mapExc_mem {α β : Type} (f : α → Except Exc β) : ∀ (l : List α) (bs : List β),
+    mapExc f l = .ok bs → ∀ a ∈ l, ∃ b ∈ bs, f a = .ok b := by
+  intro l
+  induction l with
+  | nil => intro bs _ a ha; simp at ha
+  | cons x xs ih =>
+    intro bs h a ha
+    simp only [mapExc, bind, Except.bind] at h
+    cases hx : f x with
+    | error e => rw [hx] at h; cases h
+    | ok b =>
+      rw [hx] at h
+      simp only at h
+      cases hxs : mapExc f xs with
+      | error e => rw [hxs] at h; cases h
+      | ok bs' =>
+        rw [hxs] at h
+        simp only [pure, Except.pure, Except.ok.injEq] at h
+        subst h
+        simp only [List.mem_cons] at ha
+        rcases ha with rfl | ha
+        · exact ⟨b, by simp, hx⟩
+        · obtain ⟨b', hb', hf⟩ := ih bs' hxs a ha
+          exact ⟨b', by simp [hb'], hf⟩
+
+/-- What a successful `got_packet(ROUTES)` did, step by step. -/
+theorem gotRoutesPacket_ok {c c' : Client} {data : Bytes} {tail : List Bytes}
+    (h : c.gotRoutesPacket data tail = .ok c') :
+    ∃ nets d, c.gotRoutes = true ∧
+      (if c.autoNetsOpt = true then onroutesLoop c.listeners (splitOn 10 (stripWith isBSpace data)) c.fwAutoNets
+       else .ok c.fwAutoNets) = .ok nets ∧
+      fwStart c.incl nets c.excl tail = .ok d ∧
+      c' = { c with gotRoutes := false, fwAutoNets := nets, dialogues := c.dialogues ++ [d] } := by
+  unfold Client.gotRoutesPacket at h
+  by_cases hg : c.gotRoutes = true
+  · by_cases ho : c.autoNetsOpt = true
+    · simp only [hg, ho, Bool.not_true, Bool.false_eq_true, ↓reduceIte, bind, Except.bind] at h
+      cases hn : onroutesLoop c.listeners (splitOn 10 (stripWith isBSpace data)) c.fwAutoNets with
+      | error e => rw [hn] at h; cases h
+      | ok nets =>
+        rw [hn] at h
+        simp only at h
+        cases hd : fwStart c.incl nets c.excl tail with
+        | error e => rw [hd] at h; cases h
+        | ok d =>
+          rw [hd] at h
+          simp only [pure, Except.pure, Except.ok.injEq] at h
+          exact ⟨nets, d, hg, by simp [ho], hd, by rw [← h]; simp [ho]⟩
+    · simp only [hg, ho, Bool.not_true, Bool.false_eq_true, ↓reduceIte, bind, Except.bind, pure, Except.pure] at h
+      cases hd : fwStart c.incl c.fwAutoNets c.excl tail with
+      | error e => rw [hd] at h; cases h
+      | ok d =>
+        rw [hd] at h
+        simp only [Except.ok.injEq] at h
+        exact ⟨c.fwAutoNets, d, hg, by simp [ho], hd, by rw [← h]; simp [ho]⟩
+  · simp [hg] at h
+
+/-- The plan `FirewallClient.start` writes when the client received the routes `rs`. -/
+def planWith (c : Client) (rs : List Route) (tail : List Bytes) : List Bytes :=
+  [Gen.C17.START_HEADER] ++ (c.incl ++ (c.fwAutoNets ++ rs.map toSubnet)).map (subnetText 0) ++
+    c.excl.map (subnetText 1) ++ tail
+
 end Sshuttle.Routes
